@@ -72,8 +72,8 @@ ASSUMPTIONS = [
 ]
 
 STEP_TIMEOUT = 40.0  # one controlled step (microseconds of work) not reaching its next park point
-OS_STALL = 15.0  # OS-scheduled run: no callback / tofile event for this long = hang
-OS_TIMEOUT = 60.0  # ... and absolute cap
+OS_STALL = 8.0  # OS-scheduled run: no callback / tofile event for this long = stall (confirmed by a re-run)
+OS_TIMEOUT = 40.0  # ... and absolute cap
 
 
 class _Abort(BaseException):
@@ -997,6 +997,49 @@ class Director:
                     max_active_bytes=self.st.max_active_bytes, tofile_calls=list(self.st.tofile_calls))
 
 
+def run_controlled(case, gcfg, chooser, part=None):
+    """One controlled run.  A step that does not reach its next park point within STEP_TIMEOUT may be a genuine
+    hang or a starved thread on a loaded machine: the controlled scheduler is deterministic, so the same label
+    sequence is executed again (with a longer limit) and "hang" is reported only when it happens again at the
+    same step."""
+    global STEP_TIMEOUT
+    res = Director(case, gcfg).run(chooser)
+    if res["status"] != "hang":
+        return res
+    labels = [list(l) for l in res["labels"]]
+    it = iter(labels)
+    old = STEP_TIMEOUT
+    STEP_TIMEOUT = 3 * old
+    try:
+        res2 = Director(case, gcfg).run(lambda k, obs: next(it, None))
+    finally:
+        STEP_TIMEOUT = old
+    if res2["status"] == "hang" and len(res2["labels"]) == len(labels):
+        return res2
+    if part is not None:
+        part.count("controlled_step_timeout_not_reproduced")
+    if res2["status"] == "stopped":  # the prefix ran through this time: not a complete run, drop it
+        return None
+    return res2
+
+
+def run_os_confirmed(case, seed, part=None):
+    """OS-scheduled run; a stall is confirmed by running the same case / seed once more with doubled limits."""
+    global OS_STALL, OS_TIMEOUT
+    r = run_os(case, seed)
+    if r["status"] != "hang":
+        return r
+    old = (OS_STALL, OS_TIMEOUT)
+    OS_STALL, OS_TIMEOUT = 1.5 * old[0], 1.5 * old[1]
+    try:
+        r2 = run_os(case, seed)
+    finally:
+        OS_STALL, OS_TIMEOUT = old
+    if r2["status"] != "hang" and part is not None:
+        part.count("os_stall_not_reproduced")
+    return r2
+
+
 def oracle(case, res, serial, mode_tag, out):
     """The property itself on the real run.  `out.fail(signature, what, case)`."""
     sizes = case_sizes(case)
@@ -1324,7 +1367,10 @@ def _work(item):
             results = []
             for sc in item["scheds"]:
                 it = iter(sc)
-                results.append(Director(case, cfg).run(lambda k, obs, it=it: next(it, None)))
+                res = run_controlled(case, cfg, lambda k, obs, it=it: next(it, None), part)
+                if res is None:
+                    continue
+                results.append(res)
                 # a cover schedule is complete: it must end in a terminal state
                 if results[-1]["status"] == "stopped":
                     results[-1]["status"] = "ok-incomplete"
@@ -1344,8 +1390,11 @@ def _work(item):
                 serial = serial_reference(case)
                 results = []
                 for _w in range(item["walks"]):
-                    results.append(Director(case, cfg).run(
-                        lambda k, obs: obs["enabled"][rng.randrange(len(obs["enabled"]))] if obs["enabled"] else None))
+                    res = run_controlled(
+                        case, cfg,
+                        lambda k, obs: obs["enabled"][rng.randrange(len(obs["enabled"]))] if obs["enabled"] else None, part)
+                    if res is not None:
+                        results.append(res)
                 _compare(part, "random", case, cfg, results, serial)
         elif kind == "replay":
             _replay_into(part, item["obj"])
@@ -1359,7 +1408,7 @@ def _work(item):
                 for rep in range(item["reps"]):
                     if _hang_seen(item):
                         return dict(part)  # a hang is already reported; further runs would only block again
-                    r = run_os(case, rng.randrange(1 << 30))
+                    r = run_os_confirmed(case, rng.randrange(1 << 30), part)
                     nested = model_cfg(case) is None
                     part.case(["os", case, rep], nontrivial=True, os_mode=case["mode"], os_nested=nested,
                               os_outcome=r["outcome"], os_workers=min(case["workers"], 9))
@@ -1400,7 +1449,12 @@ def run(ctx: Ctx) -> None:
     def cap(name):
         # the nested configuration has 72 197 states / 215 352 transitions: complete in the thorough tier only;
         # the quick tier explores a depth-first part of it and executes a seeded sample of the schedules
-        return 5000 if (ctx.quick and name.startswith("nested")) else max_states
+        if name.startswith("nested"):
+            if ctx.quick:
+                return 5000
+            if not name.endswith("failing"):
+                return 40000  # thorough: the failing variant is explored completely, this one in part
+        return max_states
 
     covers = lean_batch([{"m": "writern.cover", "cfg": general_cfg(c), "maxStates": cap(n)} for n, c in fixed])
     for (name, case), cov in zip(fixed, covers):
@@ -1417,7 +1471,7 @@ def run(ctx: Ctx) -> None:
                 f"{name}: all {cov['edges']} transitions of the {cov['states']} reachable states "
                 f"({len(scheds)} complete schedules), each executed by the real writer")
         else:
-            scheds = ctx.rng.sample(scheds, min(len(scheds), 2500))
+            scheds = ctx.rng.sample(scheds, min(len(scheds), ctx.pick(2500, 20000)))
         ctx.count(f"cover_schedules[{name}]", len(scheds))
         for ch in _chunks(scheds, max(20, len(scheds) // 48 + 1)):
             items.append(dict(kind="sched", name=name, case=case, cfg=cfg, scheds=ch))
@@ -1466,7 +1520,7 @@ def _replay_into(part, obj: dict) -> None:
                   else [l[0], 0, 0] if len(l) == 2 else list(l) for l in labels]
     if mode == "os" or labels is None or cfg is None:
         for rep in range(20):
-            r = run_os(case, rep)
+            r = run_os_confirmed(case, rep, part)
             part.case(["os", case, rep], os_mode=case["mode"])
             oracle(case, r, serial, "os", part)
             if r["status"] == "hang":
@@ -1481,8 +1535,9 @@ def _replay_into(part, obj: dict) -> None:
                 lab = obs["enabled"][0] if obs["enabled"] else None
             return lab
 
-        res = Director(case, cfg).run(chooser)
-        _compare(part, "replay", case, cfg, [res], serial)
+        res = run_controlled(case, cfg, chooser, part)
+        if res is not None:
+            _compare(part, "replay", case, cfg, [res], serial)
 
 
 def _isolated(item):
